@@ -43,6 +43,7 @@ func ruleC02(c *Check) {
 	c.batchStateInventory("C02.5")
 	c.newBatchRules("C02", map[string]bool{"list-vs-amount": true, "credit-without-obligation": true, "obligation-without-credit": true, "supermode-charged": true})
 	c.debitPayer("C02.6")
+	c.pricingIdentity("C02.6")
 	c.escrowInventory("C02.7")
 	c.feeWriters("C02")
 	c.slashTriggerOnly("C02.1")
@@ -264,7 +265,10 @@ func (c *Check) filterRules(prefix string) {
 				loop = s
 			}
 		case *ast.BranchStmt:
-			nBranch++
+			// continue only skips the current element (the exact eligibility set is decided by rule .1); break / goto end the scan early
+			if s.Tok != token.CONTINUE {
+				nBranch++
+			}
 		}
 		return true
 	})
@@ -277,7 +281,7 @@ func (c *Check) filterRules(prefix string) {
 		}
 	}
 	c.req(loop != nil && nBranch == 0 && earlyOK, prefix+".2", unitConstruct(f, "every-element"), f.Body.Pos(),
-		fmt.Sprintf("the filter loops over all providers: %d break/continue statements, returns inside the loop are whole-batch aborts=%v", nBranch, earlyOK))
+		fmt.Sprintf("the filter loops over all providers: %d break/goto statements, returns inside the loop are whole-batch aborts=%v", nBranch, earlyOK))
 	// results: (list, total)
 	okRes := false
 	for _, pa := range c.P.PathsOf(f) {
@@ -340,9 +344,9 @@ func (c *Check) issueDecision(rule string) {
 		if n.skip {
 			okNeg := false
 			for _, fa := range af {
-				if fa.Neg && fa.T.Op == "&&" {
-					cs := conjuncts(fa.T)
-					if len(cs) == 2 && strings.HasPrefix(cs[0]+cs[1], "(") && strings.Contains(cs[0]+cs[1], "nonempty") && strings.Contains(cs[0]+cs[1], ".RequestContext.ResponseThreshold") {
+				if ds := fa.Disjuncts(); len(ds) == 2 {
+					j := ds[0] + ds[1]
+					if strings.Contains(j, "(! (nonempty ") && strings.Contains(j, ".RequestContext.ResponseThreshold") {
 						okNeg = true
 					}
 				}
@@ -370,6 +374,9 @@ func (c *Check) scanOrder(rule string) {
 	}
 	f := u.EndBlocker
 	for _, pa := range c.P.PathsOf(f) {
+		if !pa.OK() {
+			continue
+		}
 		i9, i10 := -1, -1
 		for i, ev := range pa.Events {
 			if ev.Kind != EvCall || ev.CI.fn == nil {
@@ -429,18 +436,15 @@ func (c *Check) priceSkeleton(rule string) {
 	dv := fmt.Sprintf("(types.GetDiscountByVolume %s (keeper.Keeper.GetRequestVolume %s %s %s))", pricing, consumerP, name, prov)
 	n := 0
 	var problems []string
-	for _, pa := range c.P.PathsOf(f) {
-		if pa.Exit != ExitSuccess || len(pa.Ret) == 0 {
-			continue
-		}
+	for _, er := range c.expandedReturns(f) {
 		n++
-		b, ok := pa.Ret[0].Match("(sdk.NewCoins (sdk.NewCoin $D (sdk.Dec.TruncateInt $V)))")
+		b, ok := er.Ret.Match("(sdk.NewCoins (sdk.NewCoin $D (sdk.Dec.TruncateInt $V)))")
 		if !ok || b["$D"].String() != bd {
-			problems = append(problems, "result "+shortTerm(pa.Ret[0])+" is not NewCoins(base denom, TruncateInt(·))")
+			problems = append(problems, "result "+shortTerm(er.Ret)+" is not NewCoins(base denom, TruncateInt(·))")
 			continue
 		}
 		V := b["$V"]
-		af := pa.AllFacts()
+		af := er.Facts
 		// find the clamp fact LT(X, One)
 		var X *Term
 		clampTrue := false
@@ -643,4 +647,41 @@ func (c *Check) earningsDeleters(rule string) {
 		check(en.Msg, c.P.SummaryOf(en.Handler))
 	}
 	check("EndBlocker", c.P.SummaryOf(u.EndBlocker))
+}
+
+type expRet struct {
+	Ret   *Term
+	Facts FactSet
+}
+
+// expandedReturns: result #0 and facts of every success path of f; when the result is produced by a
+// value-returning helper (a tail computation that was extracted), the helper's paths are expanded one level.
+func (c *Check) expandedReturns(f *Func) []expRet {
+	var out []expRet
+	for _, pa := range c.P.PathsOf(f) {
+		if pa.Exit != ExitSuccess || len(pa.Ret) == 0 {
+			continue
+		}
+		r := pa.Ret[0]
+		af := pa.AllFacts()
+		g := c.P.FuncNamed(r.Op)
+		if g == nil || !g.isHandWritten() || g.Body == nil || g == f {
+			out = append(out, expRet{r, af})
+			continue
+		}
+		m := argMap(g, r)
+		for _, pb := range c.P.PathsOf(g) {
+			if !pb.OK() || len(pb.Ret) == 0 {
+				continue
+			}
+			fs := af.Clone()
+			for _, fa := range pb.AllFacts() {
+				for _, nf := range fa.SubstAll(m) {
+					fs.Add(nf)
+				}
+			}
+			out = append(out, expRet{pb.Ret[0].Subst(m), fs})
+		}
+	}
+	return out
 }
